@@ -724,6 +724,7 @@ func (p *Prog) expandBoolPhi(a Atom, depth int) []Atom {
 	}
 	type cand struct {
 		atoms []Atom
+		pref  string // the atom that tells this predecessor apart in De Morgan's reading: the incoming value's own atom, else the edge's
 	}
 	var cands []cand
 	blk := ph.Block()
@@ -741,11 +742,18 @@ func (p *Prog) expandBoolPhi(a Atom, depth int) []Atom {
 				as = append(as, na)
 				as = append(as, p.expandBoolPhi(na, depth+1)...)
 			}
+			pref := ""
+			if len(as) > 0 {
+				pref = as[0].Text
+			}
 			if ea := p.edgeAtom(pred, blk); ea != nil {
 				as = append(as, *ea)
+				if pref == "" {
+					pref = ea.Text
+				}
 			}
 			as = append(as, p.Guards(pred)...)
-			cands = append(cands, cand{as})
+			cands = append(cands, cand{as, pref})
 		}
 	case (a.Op == token.EQL || a.Op == token.NEQ) && a.Y != nil && IsNilConst(a.Y):
 		for i, e := range ph.Edges {
@@ -770,7 +778,7 @@ func (p *Prog) expandBoolPhi(a Atom, depth int) []Atom {
 				as = append(as, *ea)
 			}
 			as = append(as, p.Guards(pred)...)
-			cands = append(cands, cand{as})
+			cands = append(cands, cand{atoms: as})
 		}
 	default:
 		return nil
@@ -812,8 +820,19 @@ func (p *Prog) expandBoolPhi(a Atom, depth int) []Atom {
 			}
 		}
 		if len(rest) != 1 {
-			or = nil
-			break
+			// several atoms tell this predecessor apart: !(a && b) reads !a || !b — take the incoming value's own atom
+			var pick *Atom
+			for i := range rest {
+				if c.pref != "" && rest[i].Text == c.pref {
+					pick = &rest[i]
+				}
+			}
+			if pick == nil {
+				or = nil
+				break
+			}
+			or = append(or, *pick)
+			continue
 		}
 		or = append(or, rest[0])
 	}
